@@ -49,6 +49,7 @@ type Recorder struct {
 	// Vals[cfgID][path] = committed path value (the store keeps committed and applied values in one Atomix map)
 	Vals    map[string]map[string]*configapi.PathValue
 	MaxTx   uint64
+	TxCall  map[uint64]int  // log index -> scenario call that appended it
 	States  map[string]bool // distinct abstract states seen
 	lastAbs string
 }
@@ -56,7 +57,7 @@ type Recorder struct {
 // NewRecorder attaches a recorder to the world.
 func NewRecorder(s *Sys) *Recorder {
 	r := &Recorder{s: s, Txs: map[uint64]*configapi.Transaction{}, TxIDs: map[string]uint64{}, Props: map[string]*configapi.Proposal{},
-		Cfgs: map[string]*configapi.Configuration{}, Vals: map[string]map[string]*configapi.PathValue{}, States: map[string]bool{}}
+		TxCall: map[uint64]int{}, Cfgs: map[string]*configapi.Configuration{}, Vals: map[string]map[string]*configapi.PathValue{}, States: map[string]bool{}}
 	s.RT.OnWrite = r.onWrite
 	s.Topo.OnWrite = func(ev topoapi.Event, task string) {
 		for _, m := range s.Mon {
@@ -96,6 +97,13 @@ func (r *Recorder) onWrite(w WriteRec) {
 			tx.Index = configapi.Index(e.Index)
 			tx.Version = e.Ver
 			old := r.Txs[e.Index]
+			if w.Op == "append" && strings.HasPrefix(w.Task, "cli/") {
+				// exact association of a logged transaction with the client call whose handler appended it
+				var n int
+				if _, err := fmt.Sscanf(w.Task, "cli/%d", &n); err == nil {
+					r.TxCall[e.Index] = n
+				}
+			}
 			r.Txs[e.Index] = tx
 			r.TxIDs[string(tx.ID)] = e.Index
 			if e.Index > r.MaxTx {
